@@ -204,8 +204,11 @@ def r4(ctx, rule):
         kk, tt = flat(vf.expr(g, i.ref))
         if any(t[0] == "load" and vf.last_field(t[1]) == "rtr_signature_seg.sig_len" for t in tt):
             per = (kk, tt)
-    ctx.check(per is not None and per[0] == SKI + 2, rule, "get_sig_seg_size:per-segment", "%s:%d" % (g.relfile, g.line),
-              "adds sig_len + %s per segment (expected 22)" % (per[0] if per else "?"), key="%s:per-segment" % rule)
+    # ... and the length added in each step is the one of the segment the walk stands on (DER signatures differ in length)
+    curs = {L["cur"] for L in es.walk_loops(g, "rtr_signature_seg.next")}
+    own = per is not None and any(t[0] == "load" and vf.last_field(t[1]) == "rtr_signature_seg.sig_len" and vf.root_of(t[1]) in curs for t in per[1])
+    ctx.check(per is not None and per[0] == SKI + 2 and own, rule, "get_sig_seg_size:per-segment", "%s:%d" % (g.relfile, g.line),
+              "adds sig_len + %s per segment (expected 22); the sig_len of the segment the walk stands on: %s" % (per[0] if per else "?", own), key="%s:per-segment" % rule)
     VAL = pdb.enum_value("VALIDATION")
     skip = False
     for i in g.all_insts():
@@ -445,6 +448,44 @@ def no_static_state(ctx, rule):
     ctx.floor(rule, n, 10)
 
 
+def no_swapped_arguments(ctx, rule):
+    """parameters handed on to a callee go to the callee's parameter of the same name when it has one: a crosswise exchange of two
+    same-typed arguments (target AS / own AS in the public wrappers) compiles, and no test notices while both values are equal"""
+    pdb = ctx.pdb
+    n = 0
+    bad = []
+    for f in pdb.all_functions():
+        if not f.unit.startswith("rtrlib/"):
+            continue
+        pn = [p["name"] for p in f.params]
+        for c in f.calls():
+            if not c.callee:
+                continue
+            g = pdb.resolve(f, c.callee)
+            if g is None:
+                continue
+            gn = [p["name"] for p in g.params]
+            args = c.args[-len(gn):] if gn and len(c.args) >= len(gn) else []
+            got = {}
+            for k, a in enumerate(args):
+                e = vf.expr(f, a)
+                if e[0] == "arg" and e[1] < len(pn):
+                    got[gn[k]] = pn[e[1]]
+                    n += 1
+            for theirs, mine in got.items():
+                if theirs != mine and got.get(mine) == theirs:
+                    bad.append((c, "%s(...): parameter %s receives %s and parameter %s receives %s" % (c.callee, theirs, mine, mine, theirs)))
+    seen = set()
+    for c, msg in bad:
+        if c.id in seen:
+            continue
+        seen.add(c.id)
+        ctx.violation(rule, "%s->%s:arguments-crossed" % (c.fn.name, c.callee), c.loc(), msg, key="%s:crossed:%s:%s" % (rule, c.fn.name, c.callee))
+    if not bad:
+        ctx.ok(rule, "no-crossed-arguments", "rtrlib", "%d parameters handed on to callees; none of them crosswise to a same-named parameter" % n)
+    ctx.floor(rule, n, 300)
+
+
 def check(ctx):
     pdb = ctx.pdb
     retsets = flow.return_sets(pdb)
@@ -456,6 +497,7 @@ def check(ctx):
              "and a missing router key with their specific codes, before anything is hashed")
     r5(ctx, retsets, VP, "C11.R5", validate_cells(pdb))
     no_static_state(ctx, "C11.R5")
+    no_swapped_arguments(ctx, "C11.R5")
     # check_router_keys: every signature segment's SKI must have at least one key
     ck = pdb.fn("check_router_keys")
     ctx.touch(ck)
@@ -481,6 +523,11 @@ def check(ctx):
         ctx.check(walk and vf.mentions(e, lambda x: isinstance(x, tuple) and x[0] == "fld" and x[2] == "rtr_signature_seg.ski") and vf.expr(ck, c.args[0]) == ("arg", 1),
                   "C11.R5", "check_router_keys:ski-of-the-current-segment", c.loc(),
                   "looked up: %s (the walk variable runs from the first signature segment along .next: %s)" % (vf.show(e), walk), key="C11.R5:check_router_keys:ski")
+    from specs import C10
+    with ctx.shared({"C10.R2": ("C11.R7", "the candidate keys of a hop are exactly the stored keys whose 20-byte SKI equals the segment's SKI (all 20 bytes "
+                                "compared, every entry of the bucket / list looked at)")}):
+        C10.r2(ctx, retsets)
+        C10.r_walks(ctx, only=["spki_table_search_by_ski", "spki_table_get_all"])
     ctx.not_decided("ECDSA verification, SHA-256 and DER parsing (OpenSSL)")
     ctx.not_decided("that a changed signed bit changes the digest (follows from R3 + SHA-256, not checked)")
 
